@@ -1,4 +1,6 @@
 """Shared helpers for the task-level checks (C02, C03, C09, C12, C13, C19)."""
+import re
+
 import z3
 
 from .sem import Ctx, fol_preds
@@ -27,8 +29,55 @@ def direction_of(problem):
     return None
 
 
-def symbol_aliases(problems):
-    """anthem renames a symbol that clashes with a 0-ary predicate to <name>__s; undo for the semantics."""
+def _symbols_of(t, acc):
+    if isinstance(t, tuple):
+        if len(t) == 2 and t[0] == 'sym':
+            acc.add(str(t[1]))
+            return
+        for x in t:
+            _symbols_of(x, acc)
+
+
+def input_names(*texts):
+    """every lower-case identifier written anywhere in the task (a superset of its symbolic constants)"""
+    return set(re.findall(r'[a-z_][A-Za-z0-9_]*', ' '.join(t for t in texts if t)))
+
+
+def _rename_symbols(t, table):
+    if isinstance(t, tuple):
+        if len(t) == 2 and t[0] == 'sym':
+            n = str(t[1])
+            return ('sym', Q(table[n])) if n in table else t
+        return tuple(_rename_symbols(x, table) for x in t)
+    return t
+
+
+def normalize_symbols(problems, texts):
+    """Undo anthem's renaming of symbolic constants (<name> -> <name>__s on a clash with a 0-ary predicate), per problem
+    and *without restating that rule*: an emitted constant <name>__s that is not written anywhere in the task can only be
+    a renamed <name>, and it is read as <name> provided the problem does not also use <name> itself as a constant (two
+    emitted constants are never read as one - if anthem splits one input constant in two, the obligations see two).
+    Rewrites the formulas in place; returns the per-problem tables."""
+    names = input_names(*texts)
+    tables = []
+    for p in problems:
+        used = set()
+        for f in p['formulas']:
+            _symbols_of(f['formula'], used)
+        table = {d: d[:-3] for d in used if d.endswith('__s') and d[:-3] in names and d not in names and d[:-3] not in used}
+        if table:
+            for f in p['formulas']:
+                f['formula'] = _rename_symbols(f['formula'], table)
+        tables.append(table)
+    return tables
+
+
+def symbol_aliases(problems, texts=None):
+    """With the task's texts: normalise the problems in place (see normalize_symbols) and return no aliases. Without
+    them (legacy): anthem's documented rule, <name>__s stands for <name> when <name>/0 is a predicate."""
+    if texts is not None:
+        normalize_symbols(problems, texts)
+        return {}
     zero = set()
     for p in problems:
         for f in p['formulas']:
